@@ -340,6 +340,10 @@ func shard(o *opts) {
 		fuelOuts, guardMaxSteps = 0, 0
 		caseStart := time.Now()
 		out := ck.RunCase(c, i)
+		if simrt.Unsupported != "" {
+			fmt.Fprintf(os.Stderr, "worker: %s case %d cannot be run: %s (exit 2: no verdict)\n", o.prop, i, simrt.Unsupported)
+			os.Exit(2)
+		}
 		if d := time.Since(caseStart).Seconds(); d > res.SlowS {
 			res.SlowS, res.SlowIdx = d, i
 		}
